@@ -47,6 +47,17 @@ func catalogue() []schedScenario {
 	my := sc("S15:a{l=0}+a/merged selects/store yields", `a{l="0"} + a`, 4, 1, 2, 2)
 	my.Case.O.Optimizers = ""
 	my.StoreYield = true
+	// delay bounding (verifshim.RunOpts.Delay): one deviation stalls a thread while all the
+	// others run as far as they can, e.g. the consumer of a batch while its producer goes
+	// on for several batches
+	s16d := sc("S18:sum by (l)(sum by (l,m)(a))/40steps/delays", `sum by (l) (sum by (l, m) (a))`, 2, 40, 1, 2)
+	s16d.Delay = true
+	s4d := sc("S19:sum by (l)(a)/12steps/delays", `sum by (l)(a)`, 2, 12, 1, 2)
+	s4d.Delay = true
+	s1d := sc("S20:a/2shards/12steps/delays", `a`, 4, 12, 1, 2)
+	s1d.Delay = true
+	s6d := sc("S21:a+b/12steps/delays", `a + on(l) group_left b`, 2, 12, 1, 2)
+	s6d.Delay = true
 	return []schedScenario{
 		sc("S1:a/2shards", `a`, 4, 2, 3, 4),
 		s2,
@@ -61,7 +72,12 @@ func catalogue() []schedScenario {
 		sc("S8:a@10+a", `a @ 10 + a`, 2, 2, 1, 2),
 		sc("S9a:a/31steps", `a`, 2, 31, 1, 2),
 		sc("S9b:sum by (l)(a)/31steps", `sum by (l)(a)`, 2, 31, 1, 1),
-		dist, inst, pp, yp, ms, my,
+		// an aggregation fed by another aggregation (not by a coalesce): the inner one runs
+		// ahead on its own goroutine by up to two batches and takes recycled batch slices
+		// back out of its pool while the outer one may still be reading them
+		sc("S16:sum by (l)(sum by (l,m)(a))/40steps", `sum by (l) (sum by (l, m) (a))`, 2, 40, 1, 2),
+		sc("S17:max(-sum by (l)(a))/40steps", `max(-sum by (l) (a))`, 2, 40, 1, 1),
+		dist, inst, pp, yp, ms, my, s16d, s4d, s1d, s6d,
 	}
 }
 
@@ -101,6 +117,14 @@ func runSched(c *check.Ctx, scn *schedScenario, prop string, events []string, or
 	root := explore.RunOnce(&base, explore.Sched{EventStep: -1})
 	if sym, det := baseOracle(root); sym != "" {
 		c.Fail(check.Failure{Prop: prop, Kind: "sched", Symptom: sym, Detail: "default schedule: " + det, Scenario: &base, Sched: &explore.Sched{EventStep: -1}})
+		return
+	}
+	// the schedules are compared with the default one; the default one is compared with
+	// the reference engine (a defect that shows in every schedule alike would otherwise pass)
+	if sym, det := rootVsRef(&base, root); sym != "" {
+		if c.Shard == 0 {
+			c.Fail(check.Failure{Prop: prop, Kind: "sched-root", Symptom: sym, Detail: det, Scenario: &base, Sched: &explore.Sched{EventStep: -1}})
+		}
 		return
 	}
 	if c.Shard == 0 {
@@ -179,6 +203,28 @@ func runSched(c *check.Ctx, scn *schedScenario, prop string, events []string, or
 			}
 		}
 	}
+}
+
+// rootVsRef compares the result of the default schedule (of both queries, for a pair) with
+// the reference engine. Scenarios with injected faults or a cancelled context have no
+// reference result.
+func rootVsRef(sc *explore.Scenario, root *explore.Obs) (string, string) {
+	if sc.PreCancel {
+		return "", ""
+	}
+	if len(sc.Case.Faults) == 0 && root.Res != nil {
+		ref := core.RunRef(&sc.Case, storeFor(&sc.Case))
+		if sym, det := core.Diff(ref, root.Res, false); sym != "" {
+			return "root:" + sym, "the default schedule differs from the reference engine: " + det
+		}
+	}
+	if sc.Two != nil && len(sc.Two.Faults) == 0 && root.Res2 != nil {
+		ref := core.RunRef(sc.Two, storeFor(sc.Two))
+		if sym, det := core.Diff(ref, root.Res2, false); sym != "" {
+			return "root:" + sym, "the default schedule (second query) differs from the reference engine: " + det
+		}
+	}
+	return "", ""
 }
 
 func sameAsRoot(root *explore.Obs) func(o *explore.Obs, s explore.Sched) (string, string) {
@@ -325,8 +371,13 @@ func init() {
 }
 
 func init() {
+	check.Replayers["sched-root"] = func(f *check.Failure) (string, string) {
+		root := explore.RunOnce(f.Scenario, explore.Sched{EventStep: -1})
+		fmt.Printf("scenario %s query %q, default schedule: %s\n", f.Scenario.Name, f.Scenario.Case.Q, root.Res)
+		return rootVsRef(f.Scenario, root)
+	}
 	check.Replayers["sched"] = func(f *check.Failure) (string, string) {
-		root := explore.RunOnce(&explore.Scenario{Name: f.Scenario.Name, Case: f.Scenario.Case, Two: f.Scenario.Two, PoolPoints: f.Scenario.PoolPoints,
+		root := explore.RunOnce(&explore.Scenario{Name: f.Scenario.Name, Case: f.Scenario.Case, Two: f.Scenario.Two, PoolPoints: f.Scenario.PoolPoints, Delay: f.Scenario.Delay,
 			YieldPoints: f.Scenario.YieldPoints, StoreYield: f.Scenario.StoreYield}, explore.Sched{EventStep: -1})
 		o := explore.RunOnce(f.Scenario, *f.Sched)
 		fmt.Printf("scenario %s query %q event %q schedule %+v\n", f.Scenario.Name, f.Scenario.Case.Q, f.Scenario.Event, *f.Sched)
